@@ -42,7 +42,7 @@ def context(overflow_checks=True):
 
 
 def save_replay(prop, oid, payload):
-    d = os.path.join(VERIF, "replays", prop)
+    d = os.path.join(os.environ.get("VERIF_REPLAY_DIR") or os.path.join(VERIF, "replays"), prop)
     os.makedirs(d, exist_ok=True)
     p = os.path.join(d, oid + ".json")
     with open(p, "w") as f:
